@@ -72,6 +72,8 @@ def normalise_test(e):
                 return e, False
             c = ast.Compare(left=nl, ops=[nop], comparators=[nr])
             ast.copy_location(c, e)
+            if hasattr(e, "_parent"):
+                c._parent = e._parent  # rules that look at the lexical context of a test keep working on the canonical form
             return c, flip
     return e, False
 
